@@ -1,3 +1,3 @@
 import ZkVerif.Audit
-import ZkVerif.Props.C04
+import ZkVerif.Props.C04System
 #audit_ns ZkVerif.C04
